@@ -376,11 +376,6 @@ func c05Doc(run *Run, r *Rng, n *c05ENode) {
 				out := c05EncodeWith(o, enc, val)
 				if out.Panicked {
 					key := c05EscKey(enc, "panic")
-					// a "#text" string beside child elements reaches elemListSeq.Less' unchecked type assertion (the C04 defect);
-					// in decoder mode the value comes from NewMapXmlSeq, which stores only text that survives trimming
-					if seq && (mode == 2 && mixed || mode != 2 && n.mixed(false)) {
-						key = "mapseq-text-beside-children-panic"
-					}
 					vio(key, "the encoder panicked", out.text(), "bytes or an error")
 					continue
 				}
@@ -405,9 +400,6 @@ func c05Doc(run *Run, r *Rng, n *c05ENode) {
 					// escaping off: with the check on a nil error implies well-formed output
 					if chk && !ok {
 						key := c05EscKey(enc, "ill-formed-output-nil-error")
-						if enc == 2 {
-							key = "mapseq-xml-check-ignores-output"
-						}
 						vio(key, "nil error but the output is not well formed ("+why+")", string(b), "an error or well-formed XML")
 					}
 				case 1:
